@@ -170,8 +170,8 @@ def check_message_received(ctx):
     cnt = cfg.count_on_paths(lambda n: any(n is s for s, _ in sends), cfg.entry, t13[0], no_exc=True)
     ok = cnt == (1, 1)
     ctx.ob("C07.P2", q, ok, "exactly one S1F14 is sent before the transition" if ok else f"S1F14 sends before s1f13received(): {cnt}", key="s1f14-once", where=f.where)
-    for n, c in sends:
-        a0 = c.args[0]
+    for n, c, a0 in [(n, c, v) for n, c in sends for v, _conds in (rules.reaching_values(fn, cfg, n, c.args[0]) if isinstance(c.args[0], ast.Name) else [(c.args[0], ())])]:
+        # (a reply built in a local first: every value that local may hold at the send)
         sf_ok = isinstance(a0, ast.Call) and isinstance(a0.func, ast.Call) and call_name(a0.func) == "self.stream_function" and [norm(x) for x in a0.func.args] == ["1", "14"]
         body = a0.args[0] if sf_ok and a0.args and isinstance(a0.args[0], ast.Dict) else None
         commack_expr = None
